@@ -9,15 +9,32 @@ Local Open Scope nat_scope.
 Definition all_abs : list absk := [INST; FO; ZO; SEQ].
 Definition all_el : list elk := [EFO; EZO; EMM; EMIX].
 Definition bools : list bool := [false; true].
+Definition flags := (bool * bool * bool * bool)%type.        (* mat, popmdt, krates, elq *)
 
-Definition sks (maxtr maxper : nat) : list sk :=
-  flat_map (fun a => flat_map (fun t => flat_map (fun p => flat_map (fun e => flat_map (fun l => flat_map (fun m =>
-   flat_map (fun pm => flat_map (fun kr => map (fun eq => mkSk a t p e l m pm kr eq) bools) bools) bools) bools) bools) all_el)
-     (seq 0 (S maxper))) (seq 0 (S maxtr))) all_abs.
+Definition sksf (maxtr maxper : nat) (fl : list flags) : list sk :=
+  flat_map (fun a => flat_map (fun t => flat_map (fun p => flat_map (fun e => flat_map (fun l => flat_map (fun b =>
+    map (fun x : flags => let '(m, pm, kr, eq) := x in mkSk a t p e l m pm kr eq b) fl) bools) bools) all_el)
+      (seq 0 (S maxper))) (seq 0 (S maxtr))) all_abs.
 
-Definition reqs (maxn maxp : nat) : list req :=
-  [AbsInst; AbsFO; AbsZO; AbsSeq; ElFO; ElZO; ElMM; ElMix; LagOn; LagOff; PerAdd; PerRem]
-  ++ map PerSet (seq 0 (S maxp)) ++ flat_map (fun n => [Transits n true; Transits n false]) (seq 0 (S maxn)).
+(* the environment flags are enumerated only for the requests that read them:
+   MAT / POP_MDT by set_transit_compartments(keep_depot=False), K-rates / quotient elimination by
+   the removal of peripherals; for the other requests they are at a fixed value *)
+Definition fl_default : list flags := [(true, false, false, true)].
+Definition fl_matmdt : list flags := map (fun x => (fst x, snd x, false, true)) (list_prod bools bools).
+Definition fl_rates : list flags := map (fun x => (true, false, fst x, snd x)) (list_prod bools bools).
+
+Definition env_default (f : req) (s : sk) : bool :=
+  match f with
+  | Transits _ false => negb (s_krates s) && s_elq s
+  | PerRem | PerSet _ => s_mat s && negb (s_popmdt s)
+  | _ => s_mat s && negb (s_popmdt s) && negb (s_krates s) && s_elq s
+  end.
+
+Definition reqs_plain (maxn : nat) : list req :=
+  [AbsInst; AbsFO; AbsZO; AbsSeq; ElFO; ElZO; ElMM; ElMix; LagOn; LagOff; BioOn; BioOff; PerAdd]
+  ++ map (fun n => Transits n true) (seq 0 (S maxn)).
+Definition reqs_nodepot (maxn : nat) : list req := map (fun n => Transits n false) (seq 0 (S maxn)).
+Definition reqs_perrem (maxp : nat) : list req := PerRem :: map PerSet (seq 0 (S maxp)).
 
 Definition req_bounded (maxn maxp : nat) (f : req) : Prop :=
   match f with PerSet n => n <= maxp | Transits n _ => n <= maxn | _ => True end.
@@ -26,28 +43,18 @@ Lemma in_bools b : In b bools. Proof. destruct b; cbn; auto. Qed.
 Lemma in_all_abs a : In a all_abs. Proof. destruct a; cbn; auto. Qed.
 Lemma in_all_el e : In e all_el. Proof. destruct e; cbn; auto 6. Qed.
 
-Lemma sks_complete maxtr maxper s :
-  s_transits s <= maxtr -> s_periph s <= maxper -> In s (sks maxtr maxper).
+Lemma sksf_complete maxtr maxper fl s :
+  s_transits s <= maxtr -> s_periph s <= maxper ->
+  In (s_mat s, s_popmdt s, s_krates s, s_elq s) fl -> In s (sksf maxtr maxper fl).
 Proof.
-  intros Ht Hp. destruct s as [a tr per el lag mat pm kr eq]. cbn in Ht, Hp. unfold sks.
+  intros Ht Hp Hf. destruct s as [a tr per el lag mat pm kr eq bio]. cbn in Ht, Hp, Hf. unfold sksf.
   apply in_flat_map. exists a. split; [apply in_all_abs|].
   apply in_flat_map. exists tr. split; [apply in_seq; lia|].
   apply in_flat_map. exists per. split; [apply in_seq; lia|].
   apply in_flat_map. exists el. split; [apply in_all_el|].
   apply in_flat_map. exists lag. split; [apply in_bools|].
-  apply in_flat_map. exists mat. split; [apply in_bools|].
-  apply in_flat_map. exists pm. split; [apply in_bools|].
-  apply in_flat_map. exists kr. split; [apply in_bools|].
-  apply in_map_iff. exists eq. split; [reflexivity | apply in_bools].
-Qed.
-
-Lemma reqs_complete maxn maxp f : req_bounded maxn maxp f -> In f (reqs maxn maxp).
-Proof.
-  intro H. unfold reqs. destruct f; cbn in H;
-    try (apply in_or_app; left; cbn; tauto).
-  - apply in_or_app. right. apply in_or_app. left. apply in_map. apply in_seq. lia.
-  - apply in_or_app. right. apply in_or_app. right. apply in_flat_map. exists n.
-    split; [apply in_seq; lia|]. destruct keep_depot; cbn; auto.
+  apply in_flat_map. exists bio. split; [apply in_bools|].
+  apply in_map_iff. exists (mat, pm, kr, eq). split; [reflexivity | exact Hf].
 Qed.
 
 Lemma forallb2_spec {A B} (P : A -> B -> bool) (la : list A) (lb : list B) :
@@ -57,15 +64,52 @@ Proof.
   rewrite forallb_forall in H. exact (H b Hb).
 Qed.
 
-(* the graph part of every setter, run on the graph of every skeleton with at most 6 transits and
-   3 peripherals, does what the closed form `step` says (any request with counts up to 7 / 4) *)
-Lemma refine_domain : forall s f, In s (sks 6 3) -> In f (reqs 7 4) -> refines f s = true.
+(* the graph part of every setter, run on the graph of every skeleton with at most 5 transits and
+   3 peripherals, does what the closed form `step` says (requests with counts up to 6 / 4) *)
+Lemma refine_plain : forall s f, In s (sksf 5 3 fl_default) -> In f (reqs_plain 6) -> refines f s = true.
+Proof. apply (forallb2_spec (fun s f => refines f s)). vm_compute. reflexivity. Qed.
+Lemma refine_nodepot : forall s f, In s (sksf 5 3 fl_matmdt) -> In f (reqs_nodepot 6) -> refines f s = true.
+Proof. apply (forallb2_spec (fun s f => refines f s)). vm_compute. reflexivity. Qed.
+Lemma refine_perrem : forall s f, In s (sksf 5 3 fl_rates) -> In f (reqs_perrem 4) -> refines f s = true.
 Proof. apply (forallb2_spec (fun s f => refines f s)). vm_compute. reflexivity. Qed.
 
 (* ... and around the place where the string order of PERIPHERAL9 / PERIPHERAL10 matters *)
 Definition sks_periph : list sk :=
-  flat_map (fun a => flat_map (fun t => flat_map (fun p => flat_map (fun kr =>
-    map (fun eq => mkSk a t p EFO false false false kr eq) bools) bools) (seq 0 13)) [0; 2]) all_abs.
-Definition reqs_periph : list req := [PerAdd; PerRem] ++ map PerSet (seq 0 13).
+  flat_map (fun a => flat_map (fun p => map (fun x : flags => let '(m, pm, kr, eq) := x in mkSk a 0 p EFO false m pm kr eq false) fl_rates)
+    (seq 8 5)) [INST; FO].
+Definition reqs_periph : list req := [PerAdd; PerRem] ++ map PerSet [0; 1; 2; 8; 9; 10; 11; 12].
 Lemma refine_domain_periph : forall s f, In s sks_periph -> In f reqs_periph -> refines f s = true.
 Proof. apply (forallb2_spec (fun s f => refines f s)). vm_compute. reflexivity. Qed.
+
+Theorem refine_domain s f :
+  s_transits s <= 5 -> s_periph s <= 3 -> req_bounded 6 4 f -> env_default f s = true -> refines f s = true.
+Proof.
+  intros Ht Hp Hf He.
+  assert (Hb : forall b1 b2 : bool, In (b1, b2) (list_prod bools bools)).
+  { intros b1 b2. apply in_prod; apply in_bools. }
+  destruct f; cbn in Hf, He;
+    try (apply refine_plain;
+         [apply sksf_complete; try assumption;
+          destruct s as [a tr per el lag mat pm kr eq bio]; cbn in *; destruct mat, pm, kr, eq; try discriminate; cbn; auto
+         | unfold reqs_plain; apply in_or_app; left; cbn; tauto]).
+  - (* PerRem *)
+    apply refine_perrem; [|cbn; auto].
+    apply sksf_complete; try assumption.
+    destruct s as [a tr per el lag mat pm kr eq bio]; cbn in *; destruct mat, pm; try discriminate.
+    destruct kr, eq; cbn; tauto.
+  - (* PerSet *)
+    apply refine_perrem; [|right; apply in_map; apply in_seq; lia].
+    apply sksf_complete; try assumption.
+    destruct s as [a tr per el lag mat pm kr eq bio]; cbn in *; destruct mat, pm; try discriminate.
+    destruct kr, eq; cbn; tauto.
+  - (* Transits *)
+    destruct keep_depot.
+    + apply refine_plain;
+        [apply sksf_complete; try assumption;
+         destruct s as [a tr per el lag mat pm kr eq bio]; cbn in *; destruct mat, pm, kr, eq; try discriminate; cbn; auto
+        | unfold reqs_plain; apply in_or_app; right; apply in_map_iff; exists n; split; [reflexivity | apply in_seq; lia]].
+    + apply refine_nodepot; [|apply in_map_iff; exists n; split; [reflexivity | apply in_seq; lia]].
+      apply sksf_complete; try assumption.
+      destruct s as [a tr per el lag mat pm kr eq bio]; cbn in *; destruct kr, eq; try discriminate.
+      destruct mat, pm; cbn; tauto.
+Qed.
